@@ -192,6 +192,8 @@ func (f *FailoverOf[V]) Get(
 	stale, freshEnough, hasStale := f.freshEnough(err)
 	if freshEnough {
 		if err = f.refreshStale(ctx, key, stale); err != nil {
+			keyLock.err = err
+
 			return val, err
 		}
 
